@@ -5,6 +5,7 @@ From Coq Require Import ZArith Reals List String Permutation Sorted.
 Import ListNotations.
 Require Import MD.Geom.Vec MD.Gen.GeomFormulas MD.Geom.Model MD.Geom.Proofs MD.Geom.Topo MD.Geom.TopoProofs.
 Require Import MD.PBC.Model MD.PBC.Proofs MD.Geom.Periodic MD.Geom.PeriodicProofs.
+Require Import MD.Geom.GlueTypes MD.Gen.GeomGlue MD.Geom.Glue MD.Geom.GlueProofs.
 
 (* ================= polynomial identities over Z (closed) ===================================== *)
 Section OverZ. Import ZV ZG. Local Open Scope Z_scope.
@@ -178,6 +179,97 @@ Example periodic_hypotheses_satisfiable : exists p B r n,
 Proof. exact periodic_example. Qed.
 Print Assumptions periodic_hypotheses_satisfiable.
 End Periodic.
+
+(* ================= the Python front ends compute_angles / compute_dihedrals (closed) =========== *)
+(* angles_front / dihedrals_front are regenerated from the bodies of the two functions on every run *)
+Section Front. Local Open Scope Z_scope.
+
+(* the index array is accepted iff every row has the right width and every index lies in [0, n_atoms) *)
+Theorem front_validates_documented_range : forall n rows,
+  (validate angles_front n rows = None <-> good_rows 3 n rows) /\
+  (validate dihedrals_front n rows = None <-> good_rows 4 n rows).
+Proof. intros. exact (conj (angles_validate_iff n rows) (dihedrals_validate_iff n rows)). Qed.
+Print Assumptions front_validates_documented_range.
+
+Theorem front_raises_iff : forall fr pp obs so st opt p close n xyz boxes rows, documented_range fr ->
+  (exists e, api fr pp obs so st opt p close n xyz boxes rows = Raise e) <-> ~ good_rows (f_width fr) n rows.
+Proof. exact api_raises_iff. Qed.
+Print Assumptions front_raises_iff.
+
+Theorem front_shape_error_first : forall fr n rows,
+  validate fr n rows = Some EShape <-> exists r, In r rows /\ List.length r <> f_width fr.
+Proof. exact validate_shape_iff. Qed.
+Print Assumptions front_shape_error_first.
+
+(* accepted indices never leave the coordinate arrays: one defined result per index tuple (an empty index array
+   gives the empty result), given one usable cell per frame on the periodic paths *)
+Theorem front_defined_when_valid : forall fr opt p close n xyz boxes,
+  documented_range fr -> frames_have n xyz -> cells_fit (front_path fr opt p boxes close) xyz boxes ->
+  (forall rows, f_width fr = 4%nat -> good_rows 4 n rows ->
+     exists out, compute_dihedrals_with fr opt p close n xyz boxes rows = Value (Some out) /\ List.length out = List.length rows) /\
+  (forall rows, f_width fr = 3%nat -> good_rows 3 n rows ->
+     exists out, compute_angles_with fr opt p close n xyz boxes rows = Value (Some out) /\ List.length out = List.length rows).
+Proof.
+  intros fr opt p close n xyz boxes Hd Hf Hc. split; intros rows Hw Hg.
+  - exact (dihedrals_defined_when_valid fr opt p close n xyz boxes rows Hw Hd Hg Hf Hc).
+  - exact (angles_defined_when_valid fr opt p close n xyz boxes rows Hw Hd Hg Hf Hc).
+Qed.
+Print Assumptions front_defined_when_valid.
+
+(* a repaired front end is PBC.dispatch with periodic := truth value of the argument, so the public functions
+   are Periodic.dihedral_traj / angle_traj (for which periodic_uses_mic ... lattice_shift_invariant are proved) *)
+Theorem front_repaired_is_periodic_model : forall fr opt p close n xyz boxes rows, repaired fr ->
+  validate fr n rows = None ->
+  compute_dihedrals_with fr opt p close n xyz boxes rows =
+    Value (opt_all (map (fun q => dihedral_traj opt (truth p) xyz boxes (map Z.to_nat q)) rows)) /\
+  compute_angles_with fr opt p close n xyz boxes rows =
+    Value (opt_all (map (fun q => angle_traj opt (truth p) xyz boxes (map Z.to_nat q)) rows)).
+Proof.
+  intros fr opt p close n xyz boxes rows Hr Hv.
+  exact (conj (dihedrals_repaired_is_traj fr opt p close n xyz boxes rows Hr Hv)
+              (angles_repaired_is_traj fr opt p close n xyz boxes rows Hr Hv)).
+Qed.
+Print Assumptions front_repaired_is_periodic_model.
+
+Theorem front_paths_same_kind_repaired : forall fr p boxes close, repaired fr ->
+  same_kind (front_path fr true p boxes close) (front_path fr false p boxes close).
+Proof. exact paths_same_kind_repaired. Qed.
+Print Assumptions front_paths_same_kind_repaired.
+
+Theorem front_ortho_kernel_only_on_ortho_cells_repaired : forall fr opt p bs close, repaired fr ->
+  front_path fr opt p (Some bs) close = POrthoSSE -> forallb is_orthob bs = true.
+Proof. exact ortho_kernel_only_on_ortho_cells_repaired. Qed.
+Print Assumptions front_ortho_kernel_only_on_ortho_cells_repaired.
+
+(* two-variant rule: the source is the as-found or the repaired description; the repaired ones satisfy the hypotheses above *)
+Theorem front_is_cur_or_fix :
+  (angles_front = angles_cur \/ angles_front = angles_fix) /\ (dihedrals_front = dihedrals_cur \/ dihedrals_front = dihedrals_fix) /\
+  repaired angles_fix /\ repaired dihedrals_fix /\ documented_range angles_fix /\ documented_range dihedrals_fix.
+Proof. exact (conj angles_front_known (conj dihedrals_front_known fix_fronts_repaired)). Qed.
+Print Assumptions front_is_cur_or_fix.
+
+Theorem front_angles_cur_flag_refuted : exists p bs close,
+  truth p = true /\ front_path angles_cur true p (Some bs) close = PPlain /\ front_path angles_cur false p (Some bs) close <> PPlain.
+Proof. exact angles_cur_flag_refuted. Qed.
+Print Assumptions front_angles_cur_flag_refuted.
+
+Theorem front_cur_near_ortho_refuted :
+  front_path dihedrals_cur true PyTrue (Some [near_B]) true = POrthoSSE /\
+  front_path dihedrals_fix true PyTrue (Some [near_B]) true = PTricCpp /\
+  norm2 (path_disp PTricCpp near_B near_r) < norm2 (path_disp POrthoSSE near_B near_r) /\
+  path_disp PTricCpp near_B near_r = vsub near_r (vscale 20 (bb near_B)).
+Proof. exact cur_near_ortho_refuted. Qed.
+Print Assumptions front_cur_near_ortho_refuted.
+
+Example front_hypotheses_satisfiable :
+  good_rows 4 4 [[0; 1; 2; 3]] /\ frames_have 4 ex_xyz /\
+  cells_fit (front_path dihedrals_fix true PyTruthy ex_boxes false) ex_xyz ex_boxes /\
+  validate dihedrals_fix 4 [[0; 1; 2; 3]] = None /\
+  compute_dihedrals_with dihedrals_fix true PyTruthy false 4 ex_xyz ex_boxes [[0; 1; 2; 3]]
+    <> compute_dihedrals_with dihedrals_fix true PyFalsy false 4 ex_xyz ex_boxes [[0; 1; 2; 3]].
+Proof. exact front_example. Qed.
+Print Assumptions front_hypotheses_satisfiable.
+End Front.
 
 (* ================= statements over R (standard real-number axioms) ============================ *)
 Section OverR. Import RV RG. Local Open Scope R_scope.
